@@ -11,7 +11,8 @@
    node types (valid, u64 dimensions); u64 parameters of the operation are non-negative. *)
 From CC Require Import Base.Prelude Base.Scalar Base.Ty Base.Shape Graph.Value Graph.IR Graph.Eval
   Graph.Typing Proofs.EvalProofs Proofs.TypingBase Proofs.TypingTuple Proofs.TypingArith
-  Proofs.TypingProofs.
+  Proofs.TypingBits Proofs.TypingReduce Proofs.TypingStruct Proofs.TypingStack Proofs.TypingPermute
+  Proofs.TypingZip Proofs.TypingPermOps Proofs.TypingSegment Proofs.TypingProofs.
 
 (* The full statement: for every operation the evaluator computes itself (everything except the
    values supplied from outside: Input, Random, PRF, ... see Eval.from_tape). *)
@@ -73,6 +74,35 @@ Proof.
     | apply preserves_multiply | apply preserves_mixed_multiply | apply preserves_truncate].
 Qed.
 
+Theorem C09_preservation_bits : C09_statement OA2B /\ (forall st, C09_statement (OB2A st)).
+Proof. split; intros; first [apply preserves_a2b | apply preserves_b2a]. Qed.
+
+Theorem C09_preservation_reductions :
+  (forall axes, C09_statement (OSum axes)) /\ (forall axis, C09_statement (OCumSum axis)) /\
+  C09_statement OSegmentCumSum.
+Proof.
+  repeat split; intros; first [apply preserves_sum | apply preserves_cum_sum | apply preserves_segment_cum_sum].
+Qed.
+
+Theorem C09_preservation_structural :
+  (forall idx, C09_statement (OGet idx)) /\ (forall perm, C09_statement (OPermuteAxes perm)) /\
+  (forall outer, C09_statement (OStack outer)) /\ C09_statement OArrayToVector /\
+  C09_statement OVectorToArray /\ C09_statement OZip /\
+  (forall msg, C09_statement (OPrint msg)) /\ (forall msg, C09_statement (OAssert msg)).
+Proof.
+  repeat split; intros; first [apply preserves_get | apply preserves_permute_axes | apply preserves_stack
+    | apply preserves_array_to_vector | apply preserves_vector_to_array | apply preserves_zip
+    | apply preserves_print | apply preserves_assert].
+Qed.
+
+Theorem C09_preservation_index_ops :
+  (forall axis, C09_statement (OGather axis)) /\ C09_statement OInversePermutation /\
+  (forall inv, C09_statement (OApplyPermutation inv)).
+Proof.
+  repeat split; intros; first [apply preserves_gather | apply preserves_inverse_permutation
+    | apply preserves_apply_permutation].
+Qed.
+
 (* --- combined ---------------------------------------------------------------------------- *)
 Theorem C09_preservation_partial : forall o, proved_op o = true -> C09_statement o.
 Proof. exact preservation_partial. Qed.
@@ -95,6 +125,22 @@ Example C09_example_add :
   eval_node OAdd [TArray [2; 1; 3] I8; TArray [3] I8] (TArray [2; 1; 3] I8)
             [VArr [250; 1; 2; 3; 4; 5]; VArr [10; 20; 30]] = Ok (VArr [4; 21; 32; 13; 24; 35]) /\
   has_type (VArr [4; 21; 32; 13; 24; 35]) (TArray [2; 1; 3] I8) = true.
+Proof. repeat split; vm_compute; reflexivity. Qed.
+
+(* Sum over axis 1 of a [2;3] array, PermuteAxes, Gather with an out-of-range index (runtime error) *)
+Example C09_example_sum :
+  infer (OSum [1]) [TArray [2; 3] U8] = Ok (TArray [2] U8) /\
+  eval_node (OSum [1]) [TArray [2; 3] U8] (TArray [2] U8) [VArr [1; 2; 3; 100; 100; 100]] = Ok (VArr [6; 44]).
+Proof. split; vm_compute; reflexivity. Qed.
+Example C09_example_permute :
+  infer (OPermuteAxes [1; 0]) [TArray [2; 3] Bit] = Ok (TArray [3; 2] Bit) /\
+  eval_node (OPermuteAxes [1; 0]) [TArray [2; 3] Bit] (TArray [3; 2] Bit) [VArr [1; 0; 0; 1; 1; 0]]
+  = Ok (VArr [1; 1; 0; 1; 0; 0]).
+Proof. split; vm_compute; reflexivity. Qed.
+Example C09_example_gather_runtime_error :
+  infer (OGather 0) [TArray [3] I16; TArray [2] U64] = Ok (TArray [2] I16) /\
+  eval_node (OGather 0) [TArray [3] I16; TArray [2] U64] (TArray [2] I16) [VArr [7; 8; 9]; VArr [2; 3]] = Err /\
+  eval_node (OGather 0) [TArray [3] I16; TArray [2] U64] (TArray [2] I16) [VArr [7; 8; 9]; VArr [2; 0]] = Ok (VArr [9; 7]).
 Proof. repeat split; vm_compute; reflexivity. Qed.
 
 (* rejection at node-addition time *)
@@ -132,5 +178,9 @@ Print Assumptions C09_preservation_constants.
 Print Assumptions C09_preservation_tuples.
 Print Assumptions C09_broadcast_to_shape_total.
 Print Assumptions C09_preservation_elementwise.
+Print Assumptions C09_preservation_bits.
+Print Assumptions C09_preservation_reductions.
+Print Assumptions C09_preservation_structural.
+Print Assumptions C09_preservation_index_ops.
 Print Assumptions C09_preservation_partial.
 Print Assumptions C09_eval_graph_typed_partial.
